@@ -148,6 +148,13 @@ def _lzh_machine(run, jobs, replay=True):
     with ThreadPoolExecutor(max_workers=min(len(jobs), 8)) as ex:
         res = list(ex.map(one, jobs))
     merged = os.path.join(vlib.scratch(), "lzh_long_%d.ndjson" % len(run.parts))
+    schedules = []
+    if replay:
+        # drain schedules around the ring size, from the call alphabet of the drain model at the real constants
+        gs = vlib.generate("MC_LzhSched", {"W": 4096, "M": 60, "MaxLen": 3 if run.thorough else 2}, invariants=("Export",), workers=4)
+        run.add_model(gs)
+        schedules = [r["id"] for r in gs["records"]]
+        run.part("MC_LzhSched (mixed GetData / GetInternalBuffer schedules around the ring size)", schedules=len(schedules))
     with open(merged, "w") as f:
         for job, g in res:
             run.add_model(g)
@@ -155,6 +162,7 @@ def _lzh_machine(run, jobs, replay=True):
             run.part("LzhMachine %s[%d] MaxCount=%d" % (job[2], job[3], job[1]), codes=rec["codes"], out_len=rec["outLen"], capacity_error=rec["err"],
                      tlc_states=g["states"], tlc_wall_s=round(g["wall_s"], 1))
             if replay and job[1] == 65535:
+                g["records"][0]["steps"][0]["schedules"] = schedules
                 f.write(json.dumps(g["records"][0]) + "\n")
                 run.sample(g["records"][0])
     if replay:
@@ -183,7 +191,7 @@ def c04(run):
     for W, M in ((8, 3), (16, 6)) if run.thorough else ((8, 3),):
         for mf, must_hold in ((W - M - 2, True), (W - M, True), (W - M + 1, False)):
             cfg = os.path.join(vlib.scratch(), f"LzhDrain_{W}_{mf}.cfg")
-            open(cfg, "w").write(vlib.cfg_text({"W": W, "M": M, "MaxFill": mf, "MaxCodes": 6 if W == 8 else 5, "Sizes": "{1, 2, %d, %d}" % (M + 2, W + 1)}, invariants=drain_inv, properties=("RefinesBounds",) if must_hold else ()))
+            open(cfg, "w").write(vlib.cfg_text({"W": W, "M": M, "MaxFill": mf, "MaxCodes": 6 if W == 8 else 5, "Sizes": "{1, 2, %d, %d, %d}" % (M + 2, W, W + 1)}, invariants=drain_inv, properties=("RefinesBounds",) if must_hold else ()))
             r = vlib.run_tlc("LzhDrain", cfg, tags=(), workers=8, timeout=1500)
             if must_hold and (r["violation"] or not r["ok"]):
                 raise MachineryError("LzhDrain: the drain design violates its contract for a safe threshold:\n" + r["stdout"][-1500:])
